@@ -62,6 +62,9 @@ def r21(ctx: Ctx) -> RuleReport:
     if bad is None:
         rep.ok('Graph: instances/edges/attributes are pairwise disjoint and jointly exhaustive', where,
                ' ; '.join(f'{k}={bn.show(v)}' for k, v in preds.items()))
+    elif not all(set(bn.atoms_of(v)) <= {'CONCEPT_ROLE == t[1]', 't[2] in self.variables()'} for v in preds.values()):
+        rep.undecided('Graph: instances/edges/attributes are pairwise disjoint and jointly exhaustive', where,
+                      'a selection predicate contains a condition that is not understood: ' + ' ; '.join(f'{k}={bn.show(v)[:80]}' for k, v in preds.items()))
     else:
         env, vals = bad
         names = [n for n, v in zip(('instances', 'edges', 'attributes'), vals) if v]
@@ -260,6 +263,8 @@ def r39(ctx: Ctx) -> RuleReport:
     good = False
     for c in ext:
         a = c.args[0] if c.args else None
+        if isinstance(a, ast.Name):
+            a = single_def(ctx, ior, a)
         if isinstance(a, (ast.GeneratorExp, ast.ListComp)) and len(a.generators) == 1 and \
                 norm(a.generators[0].iter) == f'{ior.positional[1]}.triples' and isinstance(a.elt, ast.Name) \
                 and isinstance(a.generators[0].target, ast.Name) and a.elt.id == a.generators[0].target.id:
@@ -296,6 +301,9 @@ def _body_order_insensitive(stmts, elem_names: Set[str]) -> Optional[str]:
         elif isinstance(st, ast.Expr) and isinstance(st.value, ast.Call) and isinstance(st.value.func, ast.Attribute) \
                 and st.value.func.attr in ('add', 'discard', 'remove'):
             continue
+        elif isinstance(st, ast.Expr) and isinstance(st.value, ast.Call) and isinstance(st.value.func, ast.Attribute) \
+                and st.value.func.attr == 'pop' and len(st.value.args) == 2:
+            continue        # d.pop(key, default) as a statement only deletes
         elif isinstance(st, ast.AugAssign) and isinstance(st.op, (ast.Add, ast.BitOr)) and isinstance(st.value, ast.Constant):
             continue
         elif isinstance(st, (ast.Pass, ast.Continue)):
